@@ -17,7 +17,8 @@ use std::net::SocketAddr;
 use std::time::{Duration, Instant};
 
 use serde_json::{json, Value};
-use sozu_command_lib::proto::command::ProxyProtocolConfig;
+use sozu_command_lib::config::ListenerBuilder;
+use sozu_command_lib::proto::command::{request::RequestType, ListenerType, ProxyProtocolConfig};
 use verif_harness::rig::*;
 use verif_harness::*;
 
@@ -606,7 +607,111 @@ fn send_mode(out: &mut Out, rng: &mut Rng, thorough: bool) {
             return;
         }
     }
+    // ---- address families: listener on 127.0.0.1 / [::1] / [::] (dual stack) x client over IPv4 / IPv6.
+    // The header must carry exactly the addresses the kernel reports on the accepted socket
+    // (for a v4 client on the dual-stack listener: both v4-mapped IPv6), family byte included.
+    let has_v6 = std::net::TcpListener::bind("[::1]:0").is_ok();
+    if !has_v6 {
+        *out.dist.entry("send:skipped-no-ipv6".into()).or_insert(0) += 1;
+    }
+    let combos: Vec<(&str, std::net::IpAddr, std::net::IpAddr)> = {
+        use std::net::{IpAddr, Ipv4Addr, Ipv6Addr};
+        let mut v = vec![("v4 listener, v4 client", IpAddr::V4(Ipv4Addr::LOCALHOST), IpAddr::V4(Ipv4Addr::LOCALHOST))];
+        if has_v6 {
+            v.push(("[::1] listener, v6 client", IpAddr::V6(Ipv6Addr::LOCALHOST), IpAddr::V6(Ipv6Addr::LOCALHOST)));
+            v.push(("[::] dual-stack listener, v6 client", IpAddr::V6(Ipv6Addr::UNSPECIFIED), IpAddr::V6(Ipv6Addr::LOCALHOST)));
+            v.push(("[::] dual-stack listener, v4 client (v4-mapped on the accepted socket)", IpAddr::V6(Ipv6Addr::UNSPECIFIED), IpAddr::V4(Ipv4Addr::LOCALHOST)));
+        }
+        v
+    };
+    for (k, (label, listen_ip, client_ip)) in combos.into_iter().enumerate() {
+        let ops = vec![format!("mode=send families: {label}")];
+        out.case("send:family");
+        // the rig's reservations are 127.0.0.1-only: reserve (and claim) a port there, bind the listener
+        // on the wanted address with the same port (the held reservation is bound, never listening)
+        let Some(front) = setup(out, "listener", || {
+            let a4 = w.reserve_addr()?;
+            let addr = SocketAddr::new(listen_ip, a4.port());
+            let cfg = ListenerBuilder::new_tcp(addr.into()).to_tcp(Some(&w.config)).map_err(|e| RigError::Setup(format!("to_tcp: {e}")))?;
+            w.request_ok(RequestType::AddTcpListener(cfg))?;
+            w.activate(addr, ListenerType::Tcp)?;
+            Ok(addr)
+        }) else {
+            continue;
+        };
+        let cid = format!("fam{k}");
+        let Some(be2) = setup(out, "backend", MockBackend::listen) else { continue };
+        if setup(out, "route", || w.add_tcp_route(front, &cid, be2.addr, Some(ProxyProtocolConfig::SendHeader))).is_none() {
+            continue;
+        }
+        let target = SocketAddr::new(client_ip, front.port());
+        let Some(stream) = setup(out, "connect", || {
+            let s = std::net::TcpStream::connect_timeout(&target, Duration::from_secs(2)).map_err(|e| RigError::Io(format!("{e}")))?;
+            let _ = s.set_nodelay(true);
+            Ok(s)
+        }) else {
+            continue;
+        };
+        let mut c = RawConn::from_stream(stream);
+        let data = payload(rng, 300);
+        let _ = c.write_all(&data, T);
+        let Ok(mut b) = be2.accept(T) else {
+            out.fail("tcp-no-backend-connection", label.to_string(), ops.clone());
+            continue;
+        };
+        // what the kernel reports on sozu's accepted socket
+        let map = |a: SocketAddr| -> SocketAddr {
+            match (listen_ip, a) {
+                (std::net::IpAddr::V6(_), SocketAddr::V4(v4)) => SocketAddr::new(std::net::IpAddr::V6(v4.ip().to_ipv6_mapped()), v4.port()),
+                _ => a,
+            }
+        };
+        let want_src = map(c.local_addr().unwrap_or(target));
+        let want_dst = map(c.peer_addr().unwrap_or(target));
+        let want = v2_header(want_src, want_dst);
+        let _ = b.read_until_len(want.len() + data.len(), T);
+        let dec = decode_v2(&b.received);
+        let ok = matches!(&dec, Some((fam, src, dst, len)) if *fam == want[13] && *src == Some(want_src) && *dst == Some(want_dst) && *len == want.len());
+        if !ok {
+            out.fail("send-header-wrong-family-or-addresses", format!("{label}: backend stream starts with {} which decodes to {:?}; the accepted socket has peer {want_src} / local {want_dst} (expected header {})", hex(&b.received[..b.received.len().min(52)]), dec, hex(&want)), ops.clone());
+        } else if b.received[want.len()..] != data[..] {
+            out.fail("send-payload-differs", format!("{label}: after the header the backend received {} of {} payload bytes", b.received.len() - want.len(), data.len()), ops.clone());
+        }
+        out.nontrivial += 1;
+        *out.dist.entry(format!("send:family:{}", if ok { "ok" } else { "wrong" })).or_insert(0) += 1;
+        drop(c);
+        if !watchdog(&mut w, out, "a send-mode family case", &ops) {
+            return;
+        }
+    }
     w.stop();
+}
+
+/// independent PROXY v2 decoder (spec §2.2): (family byte, source, destination, total header length)
+fn decode_v2(i: &[u8]) -> Option<(u8, Option<SocketAddr>, Option<SocketAddr>, usize)> {
+    if i.len() < 16 || i[..12] != SIG || i[12] != 0x21 {
+        return None;
+    }
+    let len = u16::from_be_bytes([i[14], i[15]]) as usize;
+    if i.len() < 16 + len {
+        return None;
+    }
+    let d = &i[16..16 + len];
+    let (s, t) = match i[13] >> 4 {
+        1 if len >= 12 => (
+            Some(SocketAddr::from(([d[0], d[1], d[2], d[3]], u16::from_be_bytes([d[8], d[9]])))),
+            Some(SocketAddr::from(([d[4], d[5], d[6], d[7]], u16::from_be_bytes([d[10], d[11]])))),
+        ),
+        2 if len >= 36 => {
+            let mut a = [0u8; 16];
+            a.copy_from_slice(&d[..16]);
+            let mut b = [0u8; 16];
+            b.copy_from_slice(&d[16..32]);
+            (Some(SocketAddr::from((a, u16::from_be_bytes([d[32], d[33]])))), Some(SocketAddr::from((b, u16::from_be_bytes([d[34], d[35]])))))
+        }
+        _ => (None, None),
+    };
+    Some((i[13], s, t, 16 + len))
 }
 
 // ---------------------------------------------------------------- expect ---
